@@ -360,3 +360,11 @@ H("c18_bc_frozen_send", T, "C18", ["C18", "C01", "C03", "C06"], "quick",
 H("c18_mp_frozen_send_mw", T, "C18", ["C18", "C01", "C03", "C06"], "quick",
   "mpmc N=1 multi-writer: producer 0 is frozen at a solver-chosen shared access of try_send_multi (CAS claim loop) while producer 1's try_send or the consumer's try_recv runs alone",
   "N=1, prefix <=1/<=1, budget 1")
+for n, w, t in (("c05_seq_bc_n2_streams", "broadcast N=2, two streams", "quick"), ("c05_seq_bc_n1_shared", "broadcast N=1, two handles on one stream", "quick"),
+                ("c05_seq_mp_n2_shared", "mpmc N=2, two handles on one stream", "quick"), ("c05_seq_mp_n1_single", "mpmc N=1, one handle (view drops in place)", "thorough"),
+                ("c05_seq_bc_n2_single", "broadcast N=2, one handle (in-place view)", "thorough")):
+    H(n, S, "C05", ["C05", "C17"], t,
+      "sequential template with the instrumented payload: ps sends, pr0/pr1 receives, ps2 more sends (overwriting passed slots), optional in-place view, teardown in a solver-chosen order; every payload and clone dropped exactly once; " + w,
+      "sequential; symbolic counts <= N, view yes/no, teardown order", rules=SEQRULES, teardown=True)
+for n in ("c05_bc_a2_d3", "c05_mp_a1_d3", "c05_bc_a5_d3", "c05_mp_a4_d3"):
+    HARNESSES[n]["tier"] = "thorough"
